@@ -579,6 +579,16 @@ func c16Handle(r *core.Run) {
 func c16Walk(r *core.Run) {
 	p := r.P
 	n := 0
+	// the collector skips directories, never the rest of the walk
+	for _, fn := range p.FuncsIn("internal/cli") {
+		core.InstrsOf(fn, func(in ssa.Instruction) {
+			if u, ok := in.(*ssa.UnOp); ok {
+				if g, isG := u.X.(*ssa.Global); isG && g.Name() == "SkipAll" && g.Pkg != nil && (g.Pkg.Pkg.Path() == "io/fs" || g.Pkg.Pkg.Path() == "path/filepath") {
+					r.Fail("C16.WALK", core.FuncName(fn)+"#SkipAll", in.Pos(), "the file collector answers SkipAll: the first skipped directory ends the whole walk, and every file that sorts after it is silently never collected")
+				}
+			}
+		})
+	}
 	for _, fn := range p.FuncsIn("internal/cli") {
 		if fn.Parent() == nil || len(fn.Params) != 3 || !strings.HasSuffix(fn.Params[1].Type().String(), "fs.DirEntry") {
 			continue
